@@ -170,12 +170,13 @@ Lemma std_distance_tv Rc k sg y zl M N :
        - 4 * (k*(N*N) + 0*0 + M*M + N*N) * (k*(zl*zl) - 2*Rc*zl + 0*0 + y*y + zl*zl) ->
   N <> 0 ->
   0 <= conic_tv Rc k sg y zl M N ->
+  0 <= (Rc - (1 + k) * (zl + conic_tv Rc k sg y zl M N * N)) * Rc ->
   Rabs (zl + conic_tv Rc k sg y zl M N * N) < Rabs (zl + conic_to Rc k sg y zl M N * N) ->
   k_std_distance XOps (Fin k) (Fin N) (Fin 0) (Fin M) (Fin zl) (Fin 0) (Fin y) (Fin Rc)
   = Fin (conic_tv Rc k sg y zl M N).
 Proof.
-  intros Hsg Ha Hd HN Ht Hsel.
-  exact (select_root k N M zl y Rc Ha Hd HN sg Hsg Ht Hsel).
+  intros Hsg Ha Hd HN Ht Hsh Hsel.
+  exact (select_root k N M zl y Rc Ha Hd HN sg Hsg Ht Hsh Hsel).
 Qed.
 
 Definition step_ok (rs : rsurf) (st : R * R * R * R) : Prop :=
@@ -189,6 +190,7 @@ Definition step_ok (rs : rsurf) (st : R * R * R * R) : Prop :=
       0 < (2*k*N*zl + 2*0*0 + 2*M*y - 2*N*Rc + 2*N*zl) * (2*k*N*zl + 2*0*0 + 2*M*y - 2*N*Rc + 2*N*zl)
            - 4 * (k*(N*N) + 0*0 + M*M + N*N) * (k*(zl*zl) - 2*Rc*zl + 0*0 + y*y + zl*zl) /\
       0 <= conic_tv Rc k sg y zl M N /\
+      0 <= (Rc - (1 + k) * (zl + conic_tv Rc k sg y zl M N * N)) * Rc /\
       Rabs (zl + conic_tv Rc k sg y zl M N * N) < Rabs (zl + conic_to Rc k sg y zl M N * N) /\
       Rc <> 0 /\ 0 < 1 - (1 + k) * (0*0 + y1*y1) / (Rc*Rc)
   end /\
@@ -223,8 +225,8 @@ Proof.
       unfold rinteract. cbn [r_refl r_n1 r_n2 fst snd fin3]. rewrite Er. cbn [fst snd].
       replace (y + t * M + 0) with (y + t * M) by ring. reflexivity.
   - (* conic *)
-    destruct Hshape as (Ha & Hd & Ht & Hsel & HR & Hr).
-    rewrite (std_distance_tv Rc k sg y zl M N Hsg Ha Hd HN Ht Hsel).
+    destruct Hshape as (Ha & Hd & Ht & Hon & Hsel & HR & Hr).
+    rewrite (std_distance_tv Rc k sg y zl M N Hsg Ha Hd HN Ht Hon Hsel).
     unfold finite_. xops. cbn [xisnan xisinf orb negb xmul xadd].
     set (t := conic_tv Rc k sg y zl M N) in *.
     rewrite std_normal_fin by assumption.
@@ -285,9 +287,18 @@ Proof.
       rewrite Rabs_R0. apply Rabs_pos_lt. unfold Rdiv.
       apply Rmult_integral_contrapositive_currified; [lra|apply Rinv_neq_0_compat; exact Hk]. }
     generalize (RAD_ev_pos Rc k (fY1 rs F) _ HR HY1); intros Hr.
+    assert (Hon : Ev (fun e => 0 <= (Rc - (1 + k) * (fZL rs F e + conic_tv Rc k sg (fY F e) (fZL rs F e) (fM F e) (fN F e) * fN F e)) * Rc)).
+    { set (ZV := fun e => fZL rs F e + conic_tv Rc k sg (fY F e) (fZL rs F e) (fM F e) (fN F e) * fN F e) in *.
+      assert (HE : E2 (fun e => (Rc - (1 + k) * ZV e) * Rc) ((Rc - (1 + k) * 0) * Rc)) by conv.
+      assert (Hp : 0 < (Rc - (1 + k) * 0) * Rc).
+      { replace ((Rc - (1 + k) * 0) * Rc) with (Rc * Rc) by ring.
+        destruct (Rtotal_order Rc 0) as [H|[H|H]];
+          [replace (Rc * Rc) with ((- Rc) * (- Rc)) by ring; apply Rmult_lt_0_compat; lra|contradiction|apply Rmult_lt_0_compat; lra]. }
+      eapply Ev_mono; [|apply (E2_ev_pos _ _ HE Hp)].
+      intros e He. cbv beta in He. unfold ZV in He. apply Rlt_le. exact He. }
     eapply Ev_mono; [|apply (Ev_and _ _ HNne (Ev_and _ _ Ht (Ev_and _ _ Hrad (Ev_and _ _ Ha
-                               (Ev_and _ _ Hd (Ev_and _ _ Hsel Hr))))))].
-    intros e (A & B & C & D & E & G & H). unfold step_ok. cbn [r_z r_shape r_refl r_n1 r_n2 rs].
+                               (Ev_and _ _ Hd (Ev_and _ _ Hsel (Ev_and _ _ Hon Hr)))))))].
+    intros e (A & B & C & D & E & G & H & I). unfold step_ok. cbn [r_z r_shape r_refl r_n1 r_n2 rs].
     repeat split; assumption.
 Qed.
 
